@@ -12,6 +12,7 @@ from . import rules_tile as T
 from . import rules_orient as OR
 from . import rules_more as M
 from . import rules_more2 as M2
+from . import rules_more3 as M3
 
 
 class Spec:
@@ -83,6 +84,8 @@ UNITS_INFO = [("volume_reader", "nibabel_image_to_info", "vs", 1e6),
        "memory-mapped vs full-load equality"],
       ["NumPy promotion / safe-cast / iinfo tables embedded in rules_dtype"])
 def c01(repo, col):
+    M3.squeeze_without_axis(repo, col, ["volume_reader"])
+    M3.multichannel_table_agrees(repo, col)
     T.tiling_site(repo, col, "volume_reader", "volume_to_precomputed")
     T.coords_tuple(repo, col, "volume_reader", "volume_to_precomputed")
     n = A.check_modules(repo, col, ["volume_reader", "precomputed_io",
@@ -102,6 +105,9 @@ def c01(repo, col):
     M2.axis_arg_family(repo, col, ["volume_reader"])
     M2.declared_block_size(repo, col)     # codec state does not cross channels
     SP.cseg_layout(repo, col)
+    # "whichever ... storage layout (... sharded)": buffered shards reach disk
+    O.flush_chain(repo, col)
+    M2.shard_lifecycle(repo, col)
     col.floor("E-TILE", 6)
     col.floor("E-AXIS", 22)
     col.floor("E-DTYPE.pair", 25)
@@ -125,6 +131,7 @@ def c01(repo, col):
       ["compressed_segmentation format as published in the Neuroglancer "
        "repository"])
 def c02(repo, col):
+    M3.cseg_bit_order(repo, col)
     SP.cseg_layout(repo, col)
     A.check_modules(repo, col, ["_compressed_segmentation", "chunk_encoding"])
     O.cseg_field_guard(repo, col)
@@ -150,9 +157,11 @@ def c02(repo, col):
 def c03(repo, col):
     O.validation_dominates_io(repo, col)
     B.validator_complete(repo, col)
+    B.validator_same_entry(repo, col)
     S.io_pass_through(repo, col)
     SB.data_type_tables(repo, col)
-    A.check_modules(repo, col, ["precomputed_io", "chunk_encoding", "_jpeg"])
+    A.check_modules(repo, col, ["precomputed_io", "chunk_encoding", "_jpeg",
+                                "_compressed_segmentation"])
     X.decoded_shape(repo, col)
     S.read_config_independence(repo, col)
     SP.cseg_layout(repo, col)
@@ -211,6 +220,7 @@ def c04(repo, col):
        "of a stateful buffer)", "content of data written by the on-disk "
        "byte array"])
 def c05(repo, col):
+    M3.dirty_cleared_after_write(repo, col)
     sh = ["sharded_base", "sharded_file_accessor", "sharded_http_accessor"]
     S.protocol_conformance(repo, col)
     O.flush_chain(repo, col)
@@ -226,6 +236,7 @@ def c05(repo, col):
     M2.shard_protocol_guards(repo, col)
     M2.module_level_caches(repo, col, sh)
     M2.swapped_arguments(repo, col)
+    SP.sharded_layout(repo, col, parts=("index", "name", "no-slot"))
     col.floor("E-PROTO", 7)
     col.floor("E-ORDER", 7)
     col.floor("E-ATTR.populated", 3)
@@ -314,6 +325,8 @@ def c09(repo, col):
     M2.shard_name_format_spec(repo, col)
     M2.swapped_arguments(repo, col)
     A.check_modules(repo, col, ["sharded_base"])
+    M2.module_level_caches(repo, col, ["sharded_base"])
+    S.shared_mutable_state(repo, col, ["sharded_base"])
     col.floor("E-BOUND", 3)
     col.floor("E-SPEC", 10)
 
@@ -341,6 +354,7 @@ def c09(repo, col):
        "with trusted shape are total",
        "x[:n] of an array with at least n elements has exactly n elements"])
 def c10(repo, col):
+    M3.pil_truncation_switch(repo, col)
     X.decoder_scope(repo, col, "chunks")
     X.decoded_shape(repo, col)
     col.floor("E-EXC.A", 12)
@@ -384,6 +398,7 @@ def c11(repo, col):
        "chunk-name patterns are axis-consistent; options reach FileAccessor"],
       ["last-write-wins over operation histories", "gzip stream validity"])
 def c12(repo, col):
+    M3.write_open_truncates(repo, col)
     SB.confinement(repo, col)
     SB.overwrite_and_gzip(repo, col)
     S.read_config_independence(repo, col)
@@ -429,6 +444,7 @@ def c13(repo, col):
     M2.declared_block_size(repo, col)
     SP.cseg_layout(repo, col)
     M2.axis_arg_family(repo, col, ["scripts.convert_chunks"])
+    M2.file_accessor_hazards(repo, col)
     col.floor("E-TILE", 6)
     col.floor("E-ORDER", 7)
 
@@ -481,6 +497,7 @@ def c14(repo, col):
       ["numpy.moveaxis / basic slicing semantics on axis labels as modelled "
        "in rules_orient"])
 def c15(repo, col):
+    M3.squeeze_without_axis(repo, col, ["scripts.slices_to_precomputed"])
     S.orientation_tables(repo, col)
     OR.orientation_semantics(repo, col)
     T.tiling_site(repo, col, "scripts.slices_to_precomputed",
@@ -508,6 +525,8 @@ def c15(repo, col):
       ["the relation for every affine", "JSON round trip of the compact URL "
        "form", "adequacy of the guessed data type"])
 def c16(repo, col):
+    M3.resolution_from_affine(repo, col)
+    M3.multichannel_table_agrees(repo, col)
     S.unit_literals(repo, col, UNITS_INFO)
     SP.half_voxel(repo, col)
     M.compact_json(repo, col)
@@ -529,6 +548,7 @@ def c16(repo, col):
        "mm -> nm factor 1e6; fragment link name and JSON shape"],
       ["VTK grammar conformance", "vertex values after arbitrary affines"])
 def c17(repo, col):
+    M3.label_parsed_as_integer(repo, col)
     SP.mesh_formats(repo, col)
     X.decoder_scope(repo, col, "mesh")
     B.strict_mesh_bound(repo, col)
@@ -556,6 +576,9 @@ def c17(repo, col):
       ["atomicity of plain chunk files (there is none: detection relies on "
        "the decoders, C10)", "behaviour under each errno"])
 def c18(repo, col):
+    M3.pil_truncation_switch(repo, col)
+    M3.dirty_cleared_after_write(repo, col)
+    M3.new_dataset_store_failure(repo, col)
     SB.accessor_io_errors(repo, col)
     SB.http_content_after_status(repo, col)
     O.shard_index_last(repo, col)
@@ -579,6 +602,8 @@ def c18(repo, col):
        "always pass through the codec"],
       ["equality of the two outputs", "idempotence of repeated steps"])
 def c19(repo, col):
+    M3.all_in_one_info_edits(repo, col)
+    M3.new_dataset_store_failure(repo, col)
     SB.pipeline_composition(repo, col)
     S.exit_status(repo, col)
     SB.overwrite_and_gzip(repo, col)
@@ -606,6 +631,7 @@ def c19(repo, col):
        "no state shared between calls"],
       ["readable_count's digit / width promise (arithmetic over format())"])
 def c20(repo, col):
+    M3.stats_bytes_include_channels(repo, col)
     T.count_formula(repo, col)
     M2.stats_accumulation_nesting(repo, col)
     S.iec_prefixes(repo, col)
